@@ -46,6 +46,70 @@ CLAIMS = {
              'correspondence and an oracle that rebuilds the cut circuit.',
         design_ref='5/C16',
         note='Modelled not verified: the callback protocol inside LogicSim.c_prop (Model/LogicSimModel.v prop1_cb).'),
+    'C03': dict(
+        technique='Coq proof of transition-parity / initial-value invariants of a Gallina transcription of _wave_eval; whole-memory correspondence',
+        text='Proof (per gate evaluation full, circuit level by correspondence). For ANY lookup table, ANY well-formed operand waveforms of '
+             'any length, ANY non-negative delay tables and ANY capacity >= 4 the transcription of _wave_eval terminates, ends (by parity) at '
+             'the LUT value of the operands\' final values -- also when transitions are dropped by overflow -- starts at the LUT value of '
+             'their initial values and yields a well-formed waveform within capacity (so the facts compose along op lists). The '
+             'transcription, SimOps and capture are tied to the code by comparing the whole waveform memory, abuf and s[3..10] on '
+             'generated circuits; an independent Boolean evaluator is the oracle.',
+        design_ref='5/C03',
+        note='Modelled not verified: _wave_eval, s_to_c, c_to_s, SimOps (hand transcriptions). Time is modelled as extended integers: '
+             'float32/float64 arithmetic is assumed exact on the integer grid with absorbing sentinels; off-grid rounding is not modelled. '
+             'The circuit-level composition (logical relation over op lists + memory map) is not yet a single theorem.'),
+    'C04': dict(
+        technique='whole-memory correspondence of the _wave_eval transcription + independent STA / shift / scale / monotonicity oracle; per-gate theorems pending',
+        text='Proof (partial): the per-gate theorems planned for this property (every emitted time is an operand time plus one of its '
+             'delays; shift and scale equivariance by a simulation relation; strict monotonicity for polarity-free delays) are being '
+             'proved over Model/WaveEval.v and are listed in the evidence once they compile; until then this property is decided by the '
+             'model/implementation correspondence plus an independent static-timing oracle, shifted (+16, -5) and scaled (x4, x1/2) reruns.',
+        design_ref='5/C04',
+        note='As C03. Theorems of Proofs/WaveEquiv.v are added to the obligations when integrated.'),
+    'C05': dict(
+        technique='Coq proofs: exhaustive hazard-soundness of the 8-valued algebra per primitive + no-change-no-edge invariant of _wave_eval; correspondence of both simulators',
+        text='Proof (per op full, circuit level by correspondence). (1) For every primitive and all known operand values: if the documented '
+             '8-valued algebra yields a plain 0/1 then the primitive is constant on the cube spanned by the active operands (exhaustive). '
+             '(2) For any gate evaluation: if the LUT is constant on the cube spanned by the operands that have finite transitions, no '
+             'transition is produced. (3) init/final of both simulators equal the Boolean function of init/final (C02, C03). Both '
+             'simulators are run on the same circuits/stimuli and compared including the activity bit.',
+        design_ref='5/C05',
+        note='As C02 and C03; the composition of (1) and (2) along a whole circuit is argued in DESIGN.md, not yet one Coq theorem.'),
+    'C06': dict(
+        technique='differential execution over all option / lane / code-path pairs; option-parametric Coq models tied by correspondence (no property-specific theorem yet)',
+        text='Proof (partial, weakest of the claimed checks): the Coq models of SimOps/LogicSim/WaveSim take c_reuse and strip_forks as '
+             'parameters and are tied to the code for every setting (C01-C05, C08); invariance itself is decided by running the '
+             'implementation against itself: c_reuse x strip_forks (zero delay on fork inputs), WaveSim vs WaveSimCuda, more lanes, lane '
+             'permutations, c_prop(sims=j), delay-dataset modes 0/1.',
+        design_ref='5/C06',
+        note='No theorem yet states option invariance; dataset mode 2 (random picking) and sd>0 capture are outside the claim.'),
+    'C07': dict(
+        technique='differential execution with permuted schedules (op order inside levels, mock-GPU thread order) + independent schedule checker (no property-specific theorem yet)',
+        text='Proof (partial): decided by executing LogicSim/WaveSim with the rows of every level permuted and WaveSimCuda with a permuted '
+             'thread order of the mock launcher, comparing all signal memory (scratch slot excluded), results and accumulated activity, '
+             'plus an independent checker of the published schedule (operands produced in earlier levels, released memory not reused '
+             'inside a level). The allocator part that makes "released memory is not handed out in the same level" true is proved (C08).',
+        design_ref='5/C07',
+        note='levels_valid / perm_level / interleave theorems over Model/SimOps.v are not proved yet; the mock launcher cannot exhibit sub-kernel interleavings.'),
+    'C08': dict(
+        technique='Coq proof of allocator invariants over all alloc/free histories (refinement to a block list); step-by-step correspondence; overlap oracle for the map',
+        text='Proof (allocator full, map partial). For ALL histories of well-formed use the Gallina transcription of sim.Heap keeps its '
+             'regions tiling the managed range with free regions coalesced, never returns a region overlapping a live one, keeps live '
+             'regions unchanged, reports the true high-water mark, and frees commute (so Python\'s set iteration order is irrelevant). '
+             'The transcription is compared with sim.Heap after EVERY step of random histories (full tables). The SimOps map (live ranges, '
+             'aliasing, total size) is modelled (Model/SimOps.v uses the Heap model) and tied by correspondence; absence of overlap is '
+             'checked by an independent liveness checker on the implementation\'s tables -- not yet a theorem.',
+        design_ref='5/C08',
+        note='Modelled not verified: sim.Heap and SimOps.__init__ are hand transcriptions.'),
+    'C13': dict(
+        technique='Coq proof that returned activity counts = edges of the stored waveform and of the overflow-mark rule; whole-memory correspondence; recount oracle',
+        text='Proof (partial). Proved per gate evaluation for all inputs: (nrise, nfall) equal the rising/falling transitions of the '
+             'waveform stored, and the overflow mark is set iff this evaluation dropped transitions or an operand carries the mark. '
+             'Capture (s[3..10]) and abuf accumulation are modelled and compared exactly with the code; oracle recounts from the stored '
+             'waveforms and re-simulates with capacity 64. Theorems about capture and "no mark => identical to unlimited capacity" are '
+             'in progress (Proofs/WaveEquiv.v, capture lemmas).',
+        design_ref='5/C13',
+        note='As C03; capture with sd>0 is outside the claim.'),
 }
 
 NOT_YET = 'check not built yet in this session (see DESIGN.md section 8 build order); no claim is made'
